@@ -1,5 +1,6 @@
 CONSTANTS Jobs <- cJobs  LocsOf <- cLocsOf  Dirs <- cDirs  Pinned <- cPinned
-SPECIFICATION Spec
+INIT Init
+NEXT MCNext
 INVARIANT DirsExist
 INVARIANT DirsRegistered
 INVARIANT DirsDistinct
